@@ -152,8 +152,28 @@ fn run_cli(reps: &[Rep], reference: Option<Position>) -> Result<Vec<Option<(f64,
     let path = format!("{dir}/c06cli.{}.jsonl", std::process::id());
     {
         let mut f = std::io::BufWriter::new(std::fs::File::create(&path).map_err(|e| ("cli".to_string(), e.to_string()))?);
-        for r in reps {
-            writeln!(f, "{}", json!({"timestamp": r.ts, "frame": hexs(&r.frame), "metadata": [{"system_timestamp": r.ts, "serial": 1}]})).unwrap();
+        // the optional sensor fields are filled the way jet1090 writes them, including a receiver clock that has nothing
+        // to do with `timestamp` (dump1090-style feeds): the record's own `timestamp` is the only time that counts
+        let style = reps.first().map(|r| (r.ts.to_bits() >> 3) % 4).unwrap_or(0);
+        let t0 = reps.first().map(|r| r.ts).unwrap_or(0.0);
+        for (k, r) in reps.iter().enumerate() {
+            let mut meta = json!({"system_timestamp": r.ts, "serial": 1 + (k as u64 % 2)});
+            match style {
+                1 => {
+                    meta["gnss_timestamp"] = json!(r.ts);
+                    meta["nanoseconds"] = json!(k as u64 * 1000);
+                }
+                2 => {
+                    meta["gnss_timestamp"] = json!(t0 % 86400.0 + (r.ts - t0) / 89.0);
+                    meta["rssi"] = json!(-12.5);
+                    meta["name"] = json!("rx");
+                }
+                3 => {
+                    meta["gnss_timestamp"] = json!(r.ts + 3000.0 - 7.0 * (k as f64));
+                }
+                _ => {}
+            }
+            writeln!(f, "{}", json!({"timestamp": r.ts, "frame": hexs(&r.frame), "metadata": [meta]})).unwrap();
         }
     }
     let mut cmd = std::process::Command::new(cli);
